@@ -1,9 +1,9 @@
 package rules
 
 import (
-	"strings"
 	"go/constant"
 	"go/types"
+	"strings"
 
 	"golang.org/x/tools/go/ssa"
 
@@ -290,10 +290,11 @@ func eventsBefore(worker *ssa.Function, ev an.Event, pred func(ssa.CallInstructi
 }
 
 // Fields of testing.T by role (unexported names may change):
-//   stack    — the []func() field (cleanups registered on the handle)
-//   failed   — the atomic.Bool the exported Failed() loads
-//   tdFailed — the atomic.Bool the exported TeardownFailed() loads
-//   tearing  — the plain bool field (routes failures while cleanups run)
+//
+//	stack    — the []func() field (cleanups registered on the handle)
+//	failed   — the atomic.Bool the exported Failed() loads
+//	tdFailed — the atomic.Bool the exported TeardownFailed() loads
+//	tearing  — the plain bool field (routes failures while cleanups run)
 type tFields struct{ stack, failed, tdFailed, tearing *types.Var }
 
 func handleFields(c *core.Ctx) tFields {
